@@ -68,6 +68,18 @@ type ccCheck struct {
 	expr Expression
 }
 
+// A bare TRUE or FALSE as DEFAULT is a boolean, any other bare word is taken
+// as a string: `DEFAULT foo` is `DEFAULT 'foo'`.
+func bareDefault(s string) interface{} {
+	switch upperASCII(s) {
+	case "TRUE":
+		return true
+	case "FALSE":
+		return false
+	}
+	return s
+}
+
 func makeColumnDef(name string, typ string, cs []columnConstraint) ColumnDef {
 	cd := ColumnDef{
 		Name: name,
